@@ -57,10 +57,39 @@ def scen_plan(dev_scale=0.1, pool_env=None):
 
 for _p in ("C01", "C03", "C04", "C16"):
     PLANS[_p] = scen_plan()
+PLANS["C06"] = {
+    "quick": [vh("total-release", "total", "release", 1.0, timeout=900), vh("total-dev", "total", "dev", 0.2, timeout=900)] + scen_plan()["quick"],
+    "thorough": [vh("total-release", "total", "release", 1.0, timeout=3400), vh("total-relchk", "total", "relchk", 0.3, timeout=3400)] + scen_plan()["thorough"],
+}
 PLANS["C02"] = scen_plan()
 for _t in ("quick", "thorough"):
     for _s in PLANS["C02"][_t]:
         _s["shards"] = 4          # each worker drives pools of up to 16 threads itself
+
+PLANS["C16"] = {t: [vh("limits-release", "limits", "release", 1.0, timeout=900), vh("limits-dev", "limits", "dev", 0.1, timeout=900)] + scen_plan()[t] for t in ("quick", "thorough")}
+PLANS["C19"] = simple_plan("sign", 0.1)
+PLANS["C20"] = {
+    "quick": [
+        {"name": "lock-native", "kind": "lock_native", "profile": "release", "timeout": 600,
+         "runs": [["--histories", 3000, "--threads", 8, "--locks", 3, "--ops", 30, "--vary"],
+                  ["--histories", 1, "--threads", 16, "--locks", 1, "--ops", 12500],
+                  ["--histories", 60, "--threads", 16, "--locks", 4, "--ops", 200]]},
+        {"name": "lock-miri", "kind": "lock_miri", "shards": 4, "seeds_per_shard": 2, "timeout": 900,
+         "args": ["--histories", 1, "--threads", 3, "--locks", 1, "--ops", 6]},
+    ],
+    "thorough": [
+        {"name": "lock-native", "kind": "lock_native", "profile": "release", "timeout": 3000,
+         "runs": [["--histories", 60000, "--threads", 8, "--locks", 3, "--ops", 30, "--vary"],
+                  ["--histories", 4, "--threads", 16, "--locks", 1, "--ops", 80000],
+                  ["--histories", 2000, "--threads", 16, "--locks", 4, "--ops", 200],
+                  ["--histories", 20000, "--threads", 2, "--locks", 1, "--ops", 10]]},
+        {"name": "lock-miri", "kind": "lock_miri", "shards": 16, "seeds_per_shard": 4, "timeout": 3000,
+         "args": ["--histories", 1, "--threads", 3, "--locks", 2, "--ops", 6]},
+        {"name": "lock-tsan", "kind": "lock_tsan", "timeout": 3000,
+         "runs": [["--histories", 2000, "--threads", 8, "--locks", 3, "--ops", 30, "--vary"],
+                  ["--histories", 1, "--threads", 16, "--locks", 1, "--ops", 20000]]},
+    ],
+}
 
 # D11 witness runs in its own subprocess (C05 only)
 for tier in ("quick", "thorough"):
@@ -100,7 +129,8 @@ FLOORS = {
     "C08": [("every data op executed successfully and unsuccessfully",
              ops_floor(("Stack(", "Pred(", "Alu(", "Memory(", "ParentMemory("))),
             ("lock-step active", counter_floor("lockstep.ops_checked", 10000))],
-    "C09": [("every control op executed successfully and unsuccessfully",
+    "C09": [("eval outcomes", lambda m, tier: (all(m["counters"].get(k, 0) >= 20 for k in ("eval.true", "eval.false", "eval.invalid", "eval.exec_error")), "eval true/false/invalid/exec-error not all seen 20 times")),
+            ("every control op executed successfully and unsuccessfully",
              ops_floor(("TotalControlFlow(", "Stack(Repeat", "Access(RepeatCounter"))),
             ("lock-step active", counter_floor("lockstep.ops_checked", 10000))],
     "C10": [("compute ops executed", ops_floor(("Compute(",))),
@@ -119,6 +149,13 @@ FLOORS = {
             ("accepted sets", counter_floor("outcome.ok", 500))],
     "C04": [("permutations", counter_floor("permutations", 1000))],
     "C16": [("returned sets revalidated", counter_floor("returned_sets_revalidated", 500)), ("mutation failures", counter_floor("outcome.fail.mutations", 20))],
+    "C06": [("word strings rejected", counter_floor("words.rejected", 1000)), ("word strings decoded", counter_floor("words.decoded", 1000)),
+            ("predicate byte strings", counter_floor("predicate_bytes.rejected", 1000)), ("hostile scenarios", counter_floor("workload.random", 1000)),
+            ("malformed graphs", counter_floor("outcome.fail.invalid_graph", 100)), ("malformed outputs", counter_floor("outcome.fail.mutations", 50))],
+    "C19": [("tamperings", counter_floor("tamperings", 1000)), ("malformed signatures", counter_floor("malformed_signatures", 1000)),
+            ("vm recoveries", counter_floor("vm_recoveries", 500))],
+    "C20": [("distinct interleavings", counter_floor("distinct_final_orders", 10)), ("native ops", counter_floor("native.ops", 100000)),
+            ("miri seeds ran", counter_floor("miri.histories", 4))],
     "C17": [("permutations", counter_floor("permutations", 1000)), ("perturbations", counter_floor("perturbations", 1000))],
     "C18": [("serde round trips", counter_floor("serde_roundtrips", 10000)), ("legacy names", counter_floor("legacy_names_accepted", 100)),
             ("node_edges", counter_floor("node_edges_checked", 1000))],
@@ -147,6 +184,20 @@ SCEN_RULE = ("a scenario = 1-3 predicates (random DAG: chains, fans, random, mul
              "Non-trivial = specified and some predicate has >= 2 nodes and >= 1 edge; distinct = hash of the whole scenario.")
 for _p in ("C01", "C02", "C03", "C04", "C16"):
     RULES[_p] = SCEN_RULE
+RULES["C06"] = ("decoder stage: every word string of length <= 4 over a 9-value boundary alphabet (exhaustive) plus mutated valid encodings and random strings through "
+               "decode_mutation(s); truncated / bit-flipped / count-lying / random byte strings through Predicate::decode and all accessors, from_bytes, BytecodeMapped, "
+               "effects; over-limit sets and contracts through the validators. Checker stage: " + SCEN_RULE + " with 50 % raw graph encodings, 40 % malformed data outputs "
+               "and 30 % hostile read counts (-1 .. i64::MAX). Non-trivial = input of >= 2 words / >= 4 bytes; distinct by content hash.")
+RULES["C16"] = ("limits stage: each case puts one dimension (solutions, slots, slot length, total mutations, key length, value length, duplicate key, same key in two "
+               "solutions; nodes, edges, predicates, one invalid member; genuine / corrupted signature) at 0 / 1 / limit-1 / limit / limit+1 and keeps the rest small; the "
+               "oracle is the acceptance predicate written from the property text. Distinct = distinct dimension tuple. Checker stage: " + SCEN_RULE)
+RULES["C19"] = ("one case = a random secret key (incl. 1..5 and just below the group order) and a random contract: sign/recover/verify, a permutation of the predicates, two "
+               "content tamperings, three malformed signatures (recovery id 0..255, bit flips, all-ones, zeros, random), word encodings checked against the documented "
+               "layout and bucketed for injectivity, the VM's RecoverSecp256k1 run on the encoded words; plus raw 65-byte strings. Distinct = distinct public key.")
+RULES["C20"] = ("a history = T threads (2..16) each applying read-modify-write closures of varying duration (yield / spin / sleep 0-50us) to 1..4 StdLocks; unique ids, call/return "
+               "stamps from one global counter; the offline checker demands a single total order per lock consistent with every observed predecessor and with real time. "
+               "Native: thousands of short histories plus long ones; Miri: one schedule per seed (data races, UB and deadlocks reported by the interpreter); thorough adds a "
+               "ThreadSanitizer build. Non-trivial/distinct = distinct final order of thread ids (measured per run).")
 RULES["C17"] = ("one round = a random predicate, program, contract, solution and solution set (every 50th round at the limits: 1000 nodes/edges, 100 predicates, "
                "100 solutions), each with a random permutation and a single-field / near-collision perturbation; all pre-hash byte strings of a run are bucketed "
                "to look for two distinct values hashing the same bytes. Non-trivial = predicate with >= 2 nodes+edges, contract with >= 2 predicates, every solution; "
